@@ -81,6 +81,21 @@ def corpus(v):
                 m.pid.pid_1 = "1"
                 return m.to_er7() + "#" + vrep(m) + "#" + m.to_mllp()
             calls.append(("Message build %s L%d" % (ecn, L), build_msg))
+
+            def assign_inside(e=e, L=L, ec=ec):
+                # text assigned to children of elements that are attached to a message: split with the MESSAGE's delimiters
+                m = Message("ADT_A01", version=v, validation_level=L, encoding_chars=dict(e))
+                m.msh.msh_7 = "20200101"
+                pid = m.add_segment("PID")
+                f = pid.add_field("PID_3")
+                f.cx_1 = "123"
+                f.cx_4 = "NS%s1.2.3%sISO" % (ec["SUBCOMPONENT"], ec["SUBCOMPONENT"])
+                pid.pid_5 = "DOE%sJOHN" % ec["COMPONENT"]
+                nk1 = m.add_segment("NK1")
+                nk1.nk1_2 = "A%sB%sC" % (ec["COMPONENT"], ec["SUBCOMPONENT"])
+                m.pv1 = "PV1%s1%sI%sW%s1" % (ec["FIELD"], ec["FIELD"], ec["FIELD"], ec["COMPONENT"])
+                return m.to_er7()
+            calls.append(("assign text inside a message %s L%d" % (ecn, L), assign_inside))
         calls.append(("parse_segment overlong-invalid-date L%d" % L, lambda L=L: parse_segment("PID|1||||||" + long_bad, version=v, validation_level=L, encoding_chars=full(EC_STD)).to_er7(full(EC_STD))))
         calls.append(("parse_segment overlong-text L%d" % L, lambda L=L: parse_segment("PID|1||" + long_bad, version=v, validation_level=L, encoding_chars=full(EC_STD)).to_er7(full(EC_STD))))
         for dt, val in (("DT", "20200102"), ("DT", "nodate"), ("DT", long_bad), ("NM", "12.50"), ("NM", "x"), ("ST", long_bad),
